@@ -149,7 +149,7 @@ package schedule
 //@ spec func compositeLeft(s *compositeSchedule) int = ite(len(s.scheds) == 1, leftOf[s.scheds[0]], ite(leftOf[s.scheds[0]] < 0 || s.leftAfter[0] < 0, -1, leftOf[s.scheds[0]] + s.leftAfter[0]))
 
 //@ func NewComposite
-//@ props C02
+//@ props C02 C12
 //@ requires forall(a, 0, len(scheds), forall(b, 0, len(scheds), imp(a != b, scheds[a] != scheds[b])))
 //@ requires forall(k, 0, len(scheds), scheds[k] != nil && !startedOf[scheds[k]])
 //@ ghost n = len(scheds)
@@ -167,7 +167,7 @@ package schedule
 //@ ensures [unknown-only-if-a-later-part-is-unknown] imp(n >= 2, forall(k, 0, n-1, imp(result.(*compositeSchedule).leftAfter[k] < 0, leftOf[scheds[k+1]] < 0 || result.(*compositeSchedule).leftAfter[k+1] < 0)))
 
 //@ func (s *compositeSchedule) startNext
-//@ props C02
+//@ props C02 C12
 //@ requires wfComposite(s) && len(s.scheds) >= 2
 //@ ensures [shifted] len(s.scheds) == old(len(s.scheds)) - 1 && forall(k, 0, len(s.scheds), s.scheds[k] == old(s.scheds)[k+1] && s.leftAfter[k] == old(s.leftAfter)[k+1])
 //@ ensures wfComposite(s)
@@ -182,7 +182,7 @@ package schedule
 //@ spec func quiet() bool
 
 //@ func (s *compositeSchedule) Left
-//@ props C02
+//@ props C02 C12
 //@ requires wfComposite(s) && held(s.rwMu) == 0
 //@ at call s.rwMu.Lock havoc s.scheds, s.leftAfter
 //@ at call s.rwMu.Lock assume [monitor-invariant] wfComposite(s) && shrunkFromFront(s, old(s.scheds), old(s.leftAfter)) && imp(quiet(), len(s.scheds) == old(len(s.scheds)))
@@ -191,7 +191,7 @@ package schedule
 //@ ensures [parts-only-dropped-from-the-front] len(s.scheds) <= old(len(s.scheds))
 
 //@ func (s *compositeSchedule) Next
-//@ props C02
+//@ props C02 C12
 //@ requires wfComposite(s) && held(s.rwMu) == 0
 //@ at call s.rwMu.Lock havoc s.scheds, s.leftAfter
 //@ at call s.rwMu.Lock assume [monitor-invariant] wfComposite(s) && shrunkFromFront(s, old(s.scheds), old(s.leftAfter)) && imp(quiet(), len(s.scheds) == old(len(s.scheds)))
@@ -203,7 +203,7 @@ package schedule
 //@ at call s.startNext assert [next-part-starts-at-the-finish-of-the-previous] arg(currentFinishTime) == result_of(s.scheds[0].Next, 0) && !result_of(s.scheds[0].Next, 1)
 
 //@ func (s *compositeSchedule) Start
-//@ props C02
+//@ props C02 C12
 //@ requires wfComposite(s) && held(s.rwMu) == 0
 //@ may_panic startedOf[s.scheds[0]]
 //@ ensures wfComposite(s) && held(s.rwMu) == 0 && startedOf[s.scheds[0]]
@@ -269,7 +269,7 @@ package schedule
 //@ ensures calls(NewStep) == old(calls(NewStep)) + 1
 
 //@ func NewInstanceStepConf
-//@ props C02
+//@ props C02 C12
 // the validate tags of InstanceStepConfig
 //@ requires conf.From >= 0 && conf.To >= 0 && conf.Step >= 1 && conf.StepDuration >= 1000000
 //@ at call NewInstanceStep assert [fields-forwarded] arg(from) == conf.From && arg(to) == conf.To && arg(step) == conf.Step && arg(stepDuration) == conf.StepDuration
